@@ -76,7 +76,7 @@ package format
 //@ func (*WrappedBase64Encoder).Write(w, p) (n, err)
 //@   requires w.enc != nil
 //@   assumes#acc err == nil ==> n == len(p) && w.$acc == cat(old(w.$acc), bytes(p))
-//@   assumes#frame w.dst == old(w.dst) && w.$enc == old(w.$enc) && w.$out0 == old(w.$out0) && w.enc == old(w.enc) && w.written >= old(w.written)
+//@   assumes#frame w.dst == old(w.dst) && w.$enc == old(w.$enc) && w.$out0 == old(w.$out0) && w.enc == old(w.enc) && w.written >= old(w.written) && hasprefix(w.dst.$out, old(w.dst.$out))
 //@   modifies w.$acc, w.written, w.dst.$out, w.buf.$bbuf
 
 //@ func (*WrappedBase64Encoder).Close(w) (err)
